@@ -221,7 +221,19 @@ def r11(e: Engine, rep: Report):
     def raises(builder, n: Node, res):
         if n.kind == 'call' and e.call_name(n) in ('_attempt', 'attempt') \
                 and 'relay' in ast.unparse(n.ast.func):
-            return {TRANS, PERM, ANY}
+            out = {TRANS, PERM, ANY}
+            # under `with Timeout(...)` the call can also be left by that
+            # Timeout - a BaseException, which `except Exception` lets pass
+            for sc in n.scopes:
+                if sc.kind == 'with' and not sc.data.get(
+                        'swallows_timeout'):
+                    items = getattr(sc.ast, 'items', None) or [sc.ast]
+                    for it in items:
+                        ce = getattr(it, 'context_expr', None)
+                        if isinstance(ce, ast.Call) and ast.unparse(
+                                ce.func).rpartition('.')[2] == 'Timeout':
+                            out.add('gevent.timeout.Timeout')
+            return out
         return set()
     # _attempt together with the private helpers its arms were moved into
     # (the disposition primitives themselves are events, not inlined)
